@@ -16,6 +16,7 @@ package pubsub
 
 import (
 	"context"
+	"errors"
 	"fmt"
 	"log"
 	"net"
@@ -38,7 +39,16 @@ func NewPubSub() *PubSub {
 	}
 }
 
-func (ps *PubSub) Subscribe(_ context.Context, conn *net.Conn, channels []string, withPattern bool) {
+func (ps *PubSub) Subscribe(_ context.Context, conn *net.Conn, channels []string, withPattern bool) error {
+	if withPattern {
+		// Refuse the whole command before anything is subscribed if one of the patterns does not compile.
+		for _, pattern := range channels {
+			if _, err := glob.Compile(pattern); err != nil {
+				return errors.New("invalid glob pattern")
+			}
+		}
+	}
+
 	ps.channelsRWMut.Lock()
 	defer ps.channelsRWMut.Unlock()
 
@@ -89,6 +99,8 @@ func (ps *PubSub) Subscribe(_ context.Context, conn *net.Conn, channels []string
 			}
 		}
 	}
+
+	return nil
 }
 
 func (ps *PubSub) Unsubscribe(_ context.Context, conn *net.Conn, channels []string, withPattern bool) []byte {
@@ -147,7 +159,11 @@ func (ps *PubSub) Unsubscribe(_ context.Context, conn *net.Conn, channels []stri
 	// also unsubscribe from channels where the name matches the given pattern.
 	if withPattern {
 		for _, pattern := range channels {
-			g := glob.MustCompile(pattern)
+			g, err := glob.Compile(pattern)
+			if err != nil {
+				// A pattern that does not compile matches no channel name.
+				continue
+			}
 			for _, channel := range ps.channels {
 				// If it's a pattern channel, directly compare the patterns
 				if channel.pattern != nil && channel.name == pattern {
@@ -195,7 +211,7 @@ func (ps *PubSub) Publish(_ context.Context, message string, channelName string)
 	}
 }
 
-func (ps *PubSub) Channels(pattern string) []byte {
+func (ps *PubSub) Channels(pattern string) ([]byte, error) {
 	ps.channelsRWMut.RLock()
 	defer ps.channelsRWMut.RUnlock()
 
@@ -210,10 +226,13 @@ func (ps *PubSub) Channels(pattern string) []byte {
 			}
 		}
 		res = fmt.Sprintf("*%d\r\n%s", count, res)
-		return []byte(res)
+		return []byte(res), nil
 	}
 
-	g := glob.MustCompile(pattern)
+	g, err := glob.Compile(pattern)
+	if err != nil {
+		return nil, errors.New("invalid glob pattern")
+	}
 
 	for _, channel := range ps.channels {
 		// If channel is a pattern channel, then directly compare the channel name to pattern
@@ -229,7 +248,7 @@ func (ps *PubSub) Channels(pattern string) []byte {
 		}
 	}
 
-	return []byte(fmt.Sprintf("*%d\r\n%s", count, res))
+	return []byte(fmt.Sprintf("*%d\r\n%s", count, res)), nil
 }
 
 func (ps *PubSub) NumPat() int {
